@@ -28,9 +28,9 @@ def sh(cmd, cwd):
 
 
 def imp():
-    # round 1 deliveries: <Cxx>-out/{1,2,3} -> n1..n3; round 2: <Cxx>-out2/{1,2,3} -> n4..n6
+    # round 1 deliveries: <Cxx>-out/{1,2,3} -> n1..n3; round 2: <Cxx>-out2 -> n4..n6; round 3: <Cxx>-out3 -> n7..n9
     for prop in ALL:
-        for sub, off in (("out", 0), ("out2", 3)):
+        for sub, off in (("out", 0), ("out2", 3), ("out3", 6)):
             base = f"/tmp/neutral/{prop}-{sub}"
             if not os.path.isdir(base):
                 continue
